@@ -34,7 +34,7 @@ import traceback
 
 VERIF = os.path.dirname(os.path.dirname(os.path.abspath(__file__)))
 EVIDENCE_DIR = os.path.join(VERIF, "evidence")
-REPLAY_DIR = os.path.join(VERIF, "replays")
+REPLAY_DIR = os.environ.get("VERIF_REPLAY_DIR") or os.path.join(VERIF, "replays")
 KNOWN_FILE = os.path.join(VERIF, "known_findings.json")
 
 _MOD = None
@@ -222,6 +222,7 @@ def run_check(modname, tier, seed, replay=None, nproc=None, max_cases=None):
         "bounds": mod.bounds(tier) if hasattr(mod, "bounds") else {},
         "python_hash_seed": os.environ.get("PYTHONHASHSEED"),
         "workers": nproc,
+        "adcgen_imported_from": _adcgen_path(),
         "known_findings_hit": {k: len(v) for k, v in known_hits.items()},
         "max_case_wall_s": round(max((r["wall"] for r in results), default=0), 2),
     }
@@ -240,10 +241,11 @@ def run_check(modname, tier, seed, replay=None, nproc=None, max_cases=None):
         "wall_s": round(time.time() - t0, 2),
         "violations": len(new_viols),
     }
-    if not replay:
+    if not replay and not os.environ.get("VERIF_NO_EVIDENCE"):
         os.makedirs(EVIDENCE_DIR, exist_ok=True)
         with open(os.path.join(EVIDENCE_DIR, f"{pid}.json"), "w") as f:
             json.dump(ev, f, indent=1, default=str)
+    print(f"adcgen_from={_adcgen_path()}")
     print(f"{pid} tier={tier} seed={seed} cases={n_generated} states={len(keys) + agg_states} "
           f"transitions={transitions} nontrivial={len(nontriv) + agg_nontriv} "
           f"outcomes={len(outcomes)} caps={len(caps)} "
@@ -253,6 +255,11 @@ def run_check(modname, tier, seed, replay=None, nproc=None, max_cases=None):
         print(f"VIOLATION property={pid} replay={replay_path}")
         return 1
     return 0
+
+
+def _adcgen_path():
+    import adcgen
+    return os.path.dirname(os.path.abspath(adcgen.__file__))
 
 
 def _tuplify(x):
